@@ -49,8 +49,11 @@ impl SenderSession {
 
     pub fn run(&mut self, fdt: &mut Fdt, now: SystemTime) -> Option<Vec<u8>> {
         loop {
+            // `true` when the encoder has been created by this iteration
+            let mut new_encoder = false;
             if self.encoder.is_none() {
                 self.get_next(fdt, now);
+                new_encoder = self.encoder.is_some();
             }
 
             if !self.transfer_fdt_only {
@@ -81,6 +84,12 @@ impl SenderSession {
             let pkt = encoder.read(must_stop_transfer);
             if pkt.is_none() {
                 self.release_file(fdt, now);
+                if new_encoder {
+                    // A transfer that ends without any packet (its source fails at the first read):
+                    // like a transfer that fails to start, give the hand back instead of running
+                    // through all the remaining transfers of the object in this call
+                    return None;
+                }
                 continue;
             }
 
